@@ -29,6 +29,20 @@ Example C10_nonvacuous :
          1; 0; 0; 0;  2; 0; 1; 0;  4;  2; 0; 0; 0;  0; 0; 0; 0;  3; 0; 0; 0;  5; 0; 0; 0].
 Proof. split; [apply ok_b_ok; vm_compute; reflexivity|split; [apply ok_b_ok; vm_compute; reflexivity|vm_compute; reflexivity]]. Qed.
 
+(* Corollary: the format is unambiguous - two admissible (entries, common) pairs that differ in anything (a
+   coordinate, a row id, the ORDER of the entries or of the row ids, the common value) never produce the same
+   file.  (If save were not injective no loader could be the identity on both.) *)
+Theorem save_injective : forall es common es' common', ok es common -> ok es' common' ->
+  save es common = save es' common' -> es = es' /\ common = common'.
+Proof.
+  intros es common es' common' H H' E.
+  destruct (RoundTrip.C10_roundtrip es common H) as [b [Hs Hl]].
+  destruct (RoundTrip.C10_roundtrip es' common' H') as [b' [Hs' Hl']].
+  rewrite Hs, Hs' in E. injection E as E. subst b'.
+  rewrite Hl in Hl'. injection Hl' as E1 E2. split; assumption.
+Qed.
+Print Assumptions save_injective.
+
 (* Second sentence of the property.  [to_indx] presents the index's dict to the saver (keys are the
    coordinate tuples value :: higher coordinates, in dict order), [rebuild r nrows hshape] is
    iindex(entries, common, shape) on the loader's result (Indx/Rebuild.v; the INDX file does not record
